@@ -18,6 +18,9 @@ VARIABLES o, done
 
 Modes == {<<"clean", FALSE>>, <<"list", FALSE>>, <<"list", TRUE>>, <<"list_all", FALSE>>, <<"list_all", TRUE>>}
 
+Half == (Len(TargetPool) + 1) \div 2
+FileTargets == SubSeq(TargetPool, 1, Half)
+
 Init == done = FALSE /\ o = <<>>
 Next ==
   /\ ~done /\ done' = TRUE
@@ -27,6 +30,8 @@ Next ==
        /\ (outp = "same" => inp = "file")
        /\ (cur # "given" => zm = 0)
        /\ (via \in {"flags", "none"} => cnl)          \* cnl: the target config file ends with a line break
+       \* without the final line break a last line that is the empty name cannot be written down
+       /\ (~cnl => (FileTargets # <<>> /\ FileTargets[Len(FileTargets)] # <<>>))
        /\ o' = [d |-> d, inp |-> inp, outp |-> outp, mode |-> m[1], json |-> m[2], via |-> via, tz |-> Zones[z],
                 lang |-> Langs[lg], zm |-> zm, cur |-> cur, cnl |-> cnl]
 
@@ -34,8 +39,6 @@ InSlice == \/ Part = "all"
            \/ Part = "clean_stdout" /\ o.mode = "clean" /\ o.outp = "stdout" /\ o.via = "none" /\ o.inp = "file"
            \/ Part = "stdout" /\ o.outp = "stdout" /\ o.inp = "file" /\ o.zm = 0
 
-Half == (Len(TargetPool) + 1) \div 2
-FileTargets == SubSeq(TargetPool, 1, Half)
 FlagTargets == IF o.via = "both" THEN SubSeq(TargetPool, Half + 1, Len(TargetPool)) ELSE TargetPool
 Effective ==
   IF o.via = "none" THEN <<>>
